@@ -15,7 +15,9 @@ PLAN = dict(
     assumptions=SC_TSO + ["end-begin of every generated range is representable (documented precondition); grainsize > 0; step > 0",
                           "proportional splits only with the proportions proportional_mode::get_split can produce (left = n - n/2, right = n/2)",
                           "beyond 2^16 cells only chunk algebra (non-empty, inside, pairwise disjoint, volumes add up), no per-element counters",
-                          "always inside an explicit task_arena (the implicit arena's size depends on the machine)"],
+                          "always inside an explicit task_arena (the implicit arena's size depends on the machine)",
+                          "assertion-enabled leg: under max_allowed_parallelism 1 the nested wait of the calling thread is not routed through the helper arena (that shape trips the "
+                          "known finding C16 update-allotment assertion, which is reported by the C16 check; counted as n_excluded)"],
     floor=dict(quick=2000, thorough=50000),
     tiers=dict(
         quick=[det("rel", H, "cs-rel", 16, 320, 4, tso=True, time_cap=22),
